@@ -5682,6 +5682,24 @@ public:
             return true;
         }
 
+        if(sbepp::is_flat_group<T>::value)
+        {
+            // entries of a flat group have no variable-length members, their
+            // total size is known from the header. Visiting them one by one
+            // is not bounded by the buffer size when `blockLength` is `0`
+            const std::size_t num_in_group = *header.numInGroup();
+            const std::size_t block_length = *header.blockLength();
+            if((block_length != 0) && (num_in_group > (size / block_length)))
+            {
+                valid = false;
+                return true;
+            }
+
+            size -= num_in_group * block_length;
+            c.pointer() += num_in_group * block_length;
+            return false;
+        }
+
         const auto prev_block_length =
             set_group_block_length(*header.blockLength());
         sbepp::visit_children(g, c, *this);
